@@ -145,7 +145,7 @@ def gen_reactions(fmt, rnd, n):
         if fmt == "uclchem" and code != "MA":
             markers, nr_ = [code], rnd.choice([1, 2]) if False else 1
         nr_ = min(nr_, maxr - len(markers))
-        np__ = rnd.randint(0 if fmt in ("naunet",) else 1, maxp)
+        np__ = rnd.randint(0 if (fmt in ("naunet",) or k % 6 == 5) else 1, maxp)      # 0 - 5 products in every format
         src = pool + (long if k % 3 == 0 else [])
         rs = [rnd.choice(src) for _ in range(nr_)]
         ps = [rnd.choice(src) for _ in range(np__)]
@@ -276,6 +276,17 @@ def check_decode(tier, seed):
             B = Network(filelist=k1, fileformats="kida", elements=["H", "e"], pseudo_elements=["CR", "Photon"])
             A.add_reaction_from_file(u2, "umist")
             cases += 1
+            # a user marker table with a mixed-case marker and no upper-case twin of it (as the bundled primordial example has)
+            k2 = os.path.join(d, "d.kida")
+            open(k2, "w").write("CH         Photon                 C          H                                             9.200e-10  0.000e+00  1.720e+00 2.00e+00 0.00e+00 logn  2     10    300  2  2 1  1\n"
+                                "H          CR                     H+         e-                                            4.600e-01  0.000e+00  0.000e+00 2.00e+00 0.00e+00 logn  1     10    300  1  1 1  1\n")
+            for pe in (["CR", "CRP", "Photon"], ["Photon", "CR"]):
+                fresh()
+                C_ = Network(filelist=k2, fileformats="kida", elements=["H", "C", "e"], pseudo_elements=list(pe))
+                cases += 1
+                got_ = [names(r.reactants) for r in C_.reaction_list]
+                if got_ != [["CH"], ["H"]]:
+                    V("kida", f"marker-became-species: with the marker table {pe} the reactants are {got_}, the lines name CH and H besides the markers")
             bad = [s.name for r in A.reaction_list for s in r.reactants + r.products if s.name in MARKERS or "CRP" in s.name or "PHOTON" in s.name]
             if bad or [len(r.reactants) for r in A.reaction_list] != [2, 1, 1]:
                 V("umist", f"marker-became-species-after-other-network: reactants {[names(r.reactants) for r in A.reaction_list]}")
@@ -490,6 +501,31 @@ def check_roundtrip(tier, seed):
                 cur = back
         finally:
             shutil.rmtree(d, ignore_errors=True)
+    # a rate law the exchange format cannot carry (KROME expressions are exchanged as type UNKNOWN with zero coefficients): after the
+    # cycle the reaction either refuses to give a rate or gives the same one - never silently another
+    fresh()
+    d = tempfile.mkdtemp(prefix="vf_rtkrome_")
+    try:
+        from .native_rates import eval_c, CONDITIONS
+        kl = ["@format:idx,R,R,P,Tmin,Tmax,rate", "1,C,H,CH,10,1d4,1.0d-10*(Tgas/3d2)**(0.5)", "2,CH,H,C,NONE,NONE,2.5d-9", "3,H,H,H2,NONE,NONE,3.0d-17*sqrt(Tgas)"]
+        net = load(kl, "krome")
+        before = [eval_c(r.rateexpr(), CONDITIONS[0]) for r in net.reaction_list]
+        p = os.path.join(d, "k.naunet")
+        net.write(p, "naunet")
+        fresh()
+        back = Network(filelist=p, fileformats="naunet")
+        for k, (r, v0) in enumerate(zip(back.reaction_list, before)):
+            cases += 1
+            try:
+                v1 = eval_c(r.rateexpr(), CONDITIONS[0])
+            except Exception:
+                continue          # refused: fine
+            if abs(v1 - v0) > 2e-3 * max(abs(v0), abs(v1)):
+                V(f"cycle1-rate-law: source format krome type {int(r.reaction_type)}: the expression evaluated to {v0:.6g} before the cycle, the re-read reaction gives {r.rateexpr()!r} = {v1:.6g} instead of refusing")
+    except Exception as e:
+        V(f"krome-roundtrip-raises: {type(e).__name__}: {e}")
+    finally:
+        shutil.rmtree(d, ignore_errors=True)
     # reactions built through the API (no reader involved before the first write): windows of every shape come back as declared
     fresh()
     d = tempfile.mkdtemp(prefix="vf_rtapi_")
@@ -665,6 +701,45 @@ def check_histories(tier, seed):
                 V(f"where-by-format: mode {mode}: where_reaction(H+CO->H+O+C) = {w}, expected [0, 2]", [f"mode {mode}"])
     except Exception as e:
         V(f"operation-raises: directed permuted copy: {type(e).__name__}: {e}", [])
+    # directed: a reaction is identified by its species, not by their spelling or order: removing H+ + E -> H (KROME spelling of the
+    # electron) removes H+ + e- -> H, and a list merged from two sources de-duplicates across spellings
+    fresh()
+    try:
+        r1 = Reaction(["H+", "e-"], ["H"], alpha=1.0, reaction_type=RT.GAS_TWOBODY)
+        r2 = Reaction(["H+", "E"], ["H"], alpha=2.0, reaction_type=RT.GAS_TWOBODY)
+        r3 = Reaction(["C+", "e-"], ["C"], alpha=3.0, reaction_type=RT.GAS_TWOBODY)
+        r4 = Reaction(["E", "H+"], ["H"], alpha=4.0, reaction_type=RT.GAS_TWOBODY)
+        for arg, label_ in ((r2, "instance"), ([r2], "list of instances"), (r4, "instance with the species in another order")):
+            net = Network([r1, r3])
+            net.remove_reaction(arg)
+            cases += 1
+            got = sorted(r.alpha for r in net.reaction_list)
+            if got != [3.0]:
+                V(f"removal-by-instance: removing H+ + E -> H ({label_}) from [H+ + e- -> H, C+ + e- -> C] leaves the reactions with alpha {got}, expected [3.0]", [label_])
+        net = Network([r1, r3, r2, r4])
+        _, dupidx, _ = net.find_duplicate_reaction()
+        cases += 1
+        if list(dupidx) != [2, 3]:
+            V(f"dedup-across-spellings: [H+ + e- -> H, C+ + e- -> C, H+ + E -> H, E + H+ -> H] reports {list(dupidx)}, the third and fourth repeat the first", ["find_duplicate_reaction()"])
+    except Exception as e:
+        V(f"operation-raises: removal across spellings: {type(e).__name__}: {e}", [])
+    # directed: an index list may name a position more than once and in any order (e.g. the union of two where_species results):
+    # exactly the named positions go
+    for idxs in ([3, 0, 3, 3], [1, 1], [4, 2, 4], "where"):
+        fresh()
+        try:
+            rs = [Reaction(a, b, alpha=float(k + 1), reaction_type=RT.GAS_TWOBODY) for k, (a, b) in enumerate(
+                [(["C", "H"], ["CH"]), (["CH", "O"], ["CO", "H"]), (["H", "H"], ["H2"]), (["CO", "H+"], ["HCO+"]), (["CH", "CO"], ["C2", "H", "O"]), (["O", "H"], ["OH"])])]
+            net = Network(list(rs))
+            lst = (net.where_species("CH") + net.where_species("CO")) if idxs == "where" else list(idxs)
+            net.remove_reaction(list(lst))
+            cases += 1
+            want = sorted(r.alpha for k, r in enumerate(rs) if k not in set(lst))
+            got = sorted(r.alpha for r in net.reaction_list)
+            if got != want:
+                V(f"removal-by-index-list: remove_reaction({lst}) leaves the reactions with alpha {got}, positions not named are {want}", [f"remove_reaction({lst})"])
+        except Exception as e:
+            V(f"operation-raises: remove_reaction with a repeated index: {type(e).__name__}: {e}", [])
     # directed: an extra species declared while it still takes part in a reaction stays in the network when those reactions go
     fresh()
     try:
